@@ -126,7 +126,8 @@ TraceEnd ==
         /\ mutex' = [g \in Groups |-> IF mutex[g] = a THEN 0 ELSE mutex[g]]
         /\ drift' = IF L[a].pc = "ended" /\ Ev.st = S /\ (\A g \in Groups : mutex[g] # a) THEN drift
                     ELSE IF L[a].pc = "lost" THEN drift
-                    ELSE IF L[a].pc = "wlost" THEN (IF Ev.st \in alt[a] THEN drift ELSE Note(<<"departed-at-write", Cardinality(alt[a])>>))
+                    ELSE IF L[a].pc = "wlost" THEN (IF alt[a] = {} \/ Ev.st \in alt[a] THEN drift   \* {}: the model cannot run on alone (mutex taken): not judged
+                                                    ELSE Note(<<"departed-at-write", Cardinality(alt[a])>>))
                     ELSE Note(<<"end", L[a].pc>>)
   /\ S' = Ev.st
   /\ l' = l + 1
